@@ -16,7 +16,10 @@
  *   conn N [ws]                   rfbNewClient; `ws`: the connection is a WebSocket one (the upgrade
  *                                 request is the first input; afterwards every segment of a `send`
  *                                 travels as ONE masked binary frame, so `cuts=` are frame boundaries;
- *                                 `one=1` lets all frames of the op arrive in a single TCP segment)
+ *                                 `one=1` lets all frames of the op arrive in a single TCP segment;
+ *                                 `frag=1`: the segments are the FRAGMENTS of one WebSocket message;
+ *                                 `ctl=pingN|pongN`: a ping / pong frame with N payload bytes between
+ *                                 every two fragments)
  *   send N HEX [cuts=a,b,..]      deliver bytes, run rfbProcessClientMessage while input remains
  *   sendgen N HEX n seed [cuts=]  same, bytes = HEX ++ n pseudo-random bytes (splitmix64(seed))
  *   auth N full|view|bad [cuts=] [extra=HEX]  deliver the DES response to the pending challenge (+ HEX)
@@ -227,11 +230,13 @@ static void queue_chunk(conn *c, unsigned char *p, size_t n) {   /* takes owners
   c->pend_tail = k;
 }
 /* one masked binary WebSocket frame (client -> server) carrying n payload bytes */
-static unsigned char *ws_frame(conn *c, const unsigned char *p, size_t n, size_t *outn) {
+static unsigned char *ws_frame_op(conn *c, int b0, const unsigned char *p, size_t n, size_t *outn);
+static unsigned char *ws_frame(conn *c, const unsigned char *p, size_t n, size_t *outn) { return ws_frame_op(c, 0x82, p, n, outn); }
+static unsigned char *ws_frame_op(conn *c, int b0, const unsigned char *p, size_t n, size_t *outn) {
   unsigned char *f = (unsigned char *)malloc(n + 14), m[4]; size_t h = 0, i;
   unsigned v = ++c->maskctr * 2654435761u;
   m[0] = (unsigned char)(v >> 24); m[1] = (unsigned char)(v >> 16); m[2] = (unsigned char)(v >> 8); m[3] = (unsigned char)v;
-  f[h++] = 0x82;
+  f[h++] = (unsigned char)b0;
   if (n < 126) f[h++] = (unsigned char)(0x80 | n);
   else if (n < 65536) { f[h++] = 0x80 | 126; f[h++] = (unsigned char)(n >> 8); f[h++] = (unsigned char)n; }
   else { f[h++] = 0x80 | 127; for (i = 0; i < 8; i++) f[h++] = (unsigned char)((uint64_t)n >> (8 * (7 - i))); }
@@ -241,8 +246,31 @@ static unsigned char *ws_frame(conn *c, const unsigned char *p, size_t n, size_t
   return f;
 }
 /* queue `n` bytes for connection c in the given segmentation, then let the server consume them */
+/* WebSocket only: frag=1 makes the segments of this op the FRAGMENTS of one message (first frame
+   opcode 2 without FIN, continuation frames opcode 0, FIN on the last); ctl=ping|pong puts a control
+   frame (FIN, opcode 9 / 10, ctlpay bytes of payload) between every two fragments */
+static int opt_frag, opt_ctl, opt_ctlpay;
 static void deliver(conn *c, const unsigned char *p, size_t n, const char *cuts, int one) {
   size_t prev = 0; int stuck = 0;
+  if (c->ws && opt_frag) {
+    size_t pos[64], np = 0, k; const char *s2 = cuts; vh_buf all2 = {0};
+    pos[np++] = 0;
+    while (s2 && *s2 && np < 62) { size_t cut = (size_t)strtoul(s2, (char **)&s2, 10); if (*s2 == ',') s2++; if (cut > n) cut = n; if (cut > pos[np - 1]) pos[np++] = cut; }
+    if (pos[np - 1] < n || np == 1) pos[np++] = n;
+    for (k = 0; k + 1 < np; k++) {
+      size_t fn; int first = k == 0, last = k + 2 == np;
+      unsigned char *f = ws_frame_op(c, (last ? 0x80 : 0) | (first ? 2 : 0), p + pos[k], pos[k + 1] - pos[k], &fn);
+      if (one) { vh_buf_add(&all2, f, fn); free(f); } else queue_chunk(c, f, fn);
+      if (!last && opt_ctl) {
+        static const unsigned char cp[8] = { 'p', 'i', 'n', 'g', 1, 2, 3, 4 };
+        f = ws_frame_op(c, 0x80 | (opt_ctl == 1 ? 9 : 10), cp, (size_t)opt_ctlpay, &fn);
+        if (one) { vh_buf_add(&all2, f, fn); free(f); } else queue_chunk(c, f, fn);
+      }
+    }
+    if (one && all2.n) { queue_chunk(c, all2.p, all2.n); all2.p = NULL; }
+    free(all2.p);
+    goto run;
+  }
   const char *s = cuts;
   vh_buf all = {0};
   for (;;) {
@@ -262,6 +290,7 @@ static void deliver(conn *c, const unsigned char *p, size_t n, const char *cuts,
   }
   if (c->ws && one && all.n) { queue_chunk(c, all.p, all.n); all.p = NULL; }
   free(all.p);
+run:
   while (is_open(c)) {
     while (avail(c) == 0 && c->pend) arrive(c);      /* the event loop sleeps until a segment with data arrives */
     if (avail(c) == 0 && !(c->cl->wsctx && webSocketsHasDataInBuffer(c->cl))) break;
@@ -314,6 +343,13 @@ int main(void) {
     io_calls = 0; alarm(OP_SECONDS);
     n = vh_split(line, tok, 16);
     if (n == 0 || tok[0][0] == '#') continue;
+    { int i3; opt_frag = opt_ctl = 0; opt_ctlpay = 0;
+      for (i3 = 1; i3 < n; i3++) {
+        if (!strcmp(tok[i3], "frag=1")) opt_frag = 1;
+        else if (!strncmp(tok[i3], "ctl=ping", 8)) { opt_ctl = 1; opt_ctlpay = atoi(tok[i3] + 8); }
+        else if (!strncmp(tok[i3], "ctl=pong", 8)) { opt_ctl = 2; opt_ctlpay = atoi(tok[i3] + 8); }
+      }
+      if (opt_ctlpay < 0 || opt_ctlpay > 8) opt_ctlpay = 0; }
     if (!strcmp(tok[0], "screen") && n == 6 && !scr) {
       int w = atoi(tok[1]), h = atoi(tok[2]);
       if (w < 1 || h < 1 || w > 4096 || h > 4096) { bad(); continue; }
